@@ -1,17 +1,28 @@
 #!/usr/bin/env python3
 """Regenerate the table of seeded changes in DESIGN.md from seeded/*/meta.json."""
 import json, glob, re
+def clean(t):
+    out = []
+    for ch in t:
+        if ch == '\n': out.append('\\n')
+        elif ch == '\r': out.append('\\r')
+        elif ch == '\0': out.append('\\0')
+        elif ord(ch) < 32 or ord(ch) == 127: out.append('\\x%02x' % ord(ch))
+        elif ch == '|': out.append('/')
+        else: out.append(ch)
+    return ''.join(out)
 rows = []
 for f in sorted(glob.glob('/verif/seeded/*/meta.json')):
     m = json.load(open(f))
     det = m['checks_run']['detected_by']
     missed = m['checks_run'].get('missed_at_first', '')
-    rows.append((m['id'], m['breaks_property'], m['needs_to_manifest'], ", ".join(det) if det and det != [''] else "**none**", missed))
+    rows.append((m['id'], m['breaks_property'], clean(m['needs_to_manifest']), ", ".join(det) if det and det != [''] else "**none**", missed))
 t = "| seed | breaks | needs, in order to manifest | reported by | note |\n|---|---|---|---|---|\n"
 for r in rows:
     t += "| %s | %s | %s | %s | %s |\n" % r
 t += "\n%d seeded changes; %d reported by at least one check.\n" % (len(rows), sum(1 for r in rows if r[3] != "**none**"))
 p = '/verif/DESIGN.md'; s = open(p).read()
-s = re.sub(r"<!-- SEEDTABLE:BEGIN -->.*?<!-- SEEDTABLE:END -->", "<!-- SEEDTABLE:BEGIN -->\n" + t + "<!-- SEEDTABLE:END -->", s, flags=re.S)
+block = "<!-- SEEDTABLE:BEGIN -->\n" + t + "<!-- SEEDTABLE:END -->"
+s = re.sub(r"<!-- SEEDTABLE:BEGIN -->.*?<!-- SEEDTABLE:END -->", lambda _m: block, s, flags=re.S)
 open(p, 'w').write(s)
 print(t)
